@@ -208,7 +208,7 @@ def creation_recursion(case: dict) -> bool:
 PRELUDE = '''
 import datetime, decimal, sys
 from dataclasses import dataclass, field
-from typing import Annotated, Any, Dict, Generic, List, NewType, Optional, Self, Tuple, TypeVar, Union
+from typing import Annotated, Any, Dict, Generic, List, NamedTuple, NewType, Optional, Self, Tuple, TypedDict, TypeVar, Union
 from mashumaro import DataClassDictMixin, pass_through
 from mashumaro.config import BaseConfig, ADD_DIALECT_SUPPORT
 from mashumaro.dialect import Dialect
@@ -1060,9 +1060,10 @@ def generate_cases(ctx: vlib.Ctx) -> list[dict]:
 
 
 def self_generic_codec_defect(case: dict, d: str, obs: dict) -> bool:
-    """Known finding C10/self-in-specialised-generic-codec (independent of any customization): codec of a
-    specialised generic alias Box[X] whose class has a Self-typed field; the Self call names an unspecialised
-    method that is never created."""
+    """The defect fixed by /repo 108dd9a (former finding C10/self-in-specialised-generic-codec, independent of any
+    customization): codec of a specialised generic alias Box[X] whose class has a Self-typed field; the Self call
+    named an unspecialised method that was never created.  No longer listed: if it reappears (seeded/revert-108dd9a)
+    the failure carries this signature and is a VIOLATION."""
     sh = {**DEFAULT_SHAPE, **case.get("shape", {})}
     if not (case["entry"] == "codec_dc" and sh["generic"] == "typevar" and sh["target"] == "alias"
             and sh["position"] in ("self_opt", "self_list") and "error" in obs):
@@ -1095,7 +1096,7 @@ def run(ctx: vlib.Ctx):
         "field type (List[int], Dict[str,int], date) x a subset of the 2 field slots + (level x key) slots with a variant "
         "per slot (dict both/one direction, pass_through, dict with pass_through, strategy object, use_annotations strategy); "
         "x shape (field declared in the class / inherited / re-declared over a base declaration with decoy options; type written directly or through a TypeVar of a specialised generic dataclass; observed on the top object, on a Self-typed child, or on a nested dataclass; Config own/inherited, BaseConfig subclass/plain class); "
-        "+ path cases: a chain of up to 3 dataclasses (nested field, List/Dict of the nested class, Optional[Self] / Tuple[Self,...] children; each class with or without ADD_DIALECT_SUPPORT, also the called one; decoy Config tables on the classes that do not own the field) ending in a field whose type is a term over Annotated / NewType / Optional / Union / List / Dict-value / leaf (date, Decimal) of depth <= 4, slots for every type object of the term at every level, observed by value position; "
+        "+ path cases: a chain of up to 3 dataclasses (nested field, List/Dict of the nested class, Optional[Self] / Tuple[Self,...] children; each class with or without ADD_DIALECT_SUPPORT, also the called one; decoy Config tables on the classes that do not own the field) ending in a field whose type is a term over Annotated / NewType / Optional / Union / List / Dict-value / Tuple[X, ...] / NamedTuple / TypedDict / leaf (date, Decimal) of depth <= 4, slots for every type object of the term at every level, observed by value position; "
         "each case is observed in both directions; distinct = distinct (entry, alias, type, slots->variant, direction); "
         "non-trivial = at least one slot present. quick: fixed probes + 1500 sampled; thorough: every presence subset per entry point (format mixin: every subset of its 12 table slots, field slots sampled)")
     ctx.trusted += [
@@ -1105,7 +1106,8 @@ def run(ctx: vlib.Ctx):
         "the tagged callables identify the slot they are registered at; `is` identity distinguishes pass_through from the built-in copy",
         "Registry.get (K5 registry_prepare): get_real_type / get_type_origin / is_annotated are function parameters (theorem C10_keys holds for all of them); the handler loop and ValueSpec.__setattr__ are matched textually; validated against the real Registry.get with the real primitives each run",
         "CodeBuilder.dataclass_fields (K5): classes are abstracted to getattr(cls, '__dataclass_fields__') per MRO entry, own annotated names and cls.__dict__; x[-1:0:-1] / x[1:] are named primitives validated against CPython; that @dataclass fills __dataclass_fields__ as CPython does is not modelled (the real-class runs with inherited / re-declared fields cover it)",
-        "positions below a field (Positions.v, K5PKernel.compile): translated = Registry.get, the first handler, the spec.copy of the NewType / Optional / collection-element / Union-member descent sites, the class handed to get_(un)pack_method_flags at the dataclass and Self call sites, get_pack_method_flags (K8) and get_unpack_method_flags (K5P); hand-written glue (tied by the real-class path cases only) = which descent site a type takes (is_new_type / is_optional / collection / union dispatch of pack_/unpack_special_typing_primitive and *_collection), that a declined node continues with that site, the fresh ValueSpec of a dataclass field (checked textually), Tuple[Self, ...] treated like a collection element, and that the generated method runs with `dialect` = the forwarded keyword",
+        "positions below a field (Positions.v, K5PKernel.compile): translated = Registry.get, the first handler, the spec.copy of the NewType / Optional / collection-element / Union-member / tuple-item / NamedTuple-field / TypedDict-key descent sites, the class handed to get_(un)pack_method_flags at the dataclass and Self call sites, get_pack_method_flags (K8) and get_unpack_method_flags (K5P); hand-written glue (tied by the real-class path cases only) = which descent site a type takes (is_new_type / is_optional / collection / union dispatch of pack_/unpack_special_typing_primitive and *_collection), that a declined node continues with that site, the fresh ValueSpec of a dataclass field (checked textually), Tuple[Self, ...] treated like a collection element, and that the generated method runs with `dialect` = the forwarded keyword",
+        "which descent site a type takes: K5D translates the if/elif chains of pack_/unpack_special_typing_primitive and pack_/unpack_collection over their own test expressions (kept as text); the outcome of each test for a concrete type is computed by the library's predicates in the harness (K5D-dispatch-vs-python) - the predicates themselves (is_new_type, is_optional, issubclass ...) and the registry order between the handlers other than special-before-collection are not modelled",
         "value-dependent selection among Union members (which member packs/unpacks a value) is C11's subject: path cases always use the first member and a second member (int) that never accepts the value",
     ]
     ctx.assumptions += ["strategy values are pass_through, dicts with serialize/deserialize entries, or SerializationStrategy instances (other values are ignored by the code; covered only by the kernel validation)"]
@@ -1115,21 +1117,25 @@ def run(ctx: vlib.Ctx):
     br3 = ctx.theorems("props/C10_fields.vo", ["C10_field_decl"], kernels=["K5"])
     br4 = ctx.theorems("props/C10_positions.vo", ["C10_positions", "C10_dialect_reaches", "C10_format_dialect_everywhere"],
                        kernels=["K5", "K5P", "K8"])
-    proofs_ok = br.ok and br2.ok and br3.ok and br4.ok and all(ctx.kernel_report.get(k, {}).get("ok") for k in ("K5", "K5P", "K8"))
+    br5 = ctx.theorems("props/C10_dispatch.vo", ["C10_dispatch_optional", "C10_dispatch_union", "C10_dispatch_newtype", "C10_dispatch_self",
+                                                 "C10_dispatch_named_tuple", "C10_dispatch_tuple", "C10_dispatch_list",
+                                                 "C10_dispatch_typed_dict", "C10_dispatch_mapping"], kernels=["K5D"])
+    proofs_ok = br.ok and br2.ok and br3.ok and br4.ok and br5.ok and all(ctx.kernel_report.get(k, {}).get("ok") for k in ("K5", "K5P", "K8"))
     if proofs_ok and not ctx.quick():
         # second opinion: the independent checker on the compiled property files
         with vlib.Lock("build"):
             rc, out, _ = vlib.run(["timeout", "600", "coqchk", "-silent", "-o", "-Q", "theories", "Verif", "-Q", "gen", "VerifGen",
-                                   "-Q", "props", "VerifProps", "VerifProps.C10_precedence", "VerifProps.C10_single", "VerifProps.C10_fields", "VerifProps.C10_positions"],
+                                   "-Q", "props", "VerifProps", "VerifProps.C10_precedence", "VerifProps.C10_single", "VerifProps.C10_fields", "VerifProps.C10_positions", "VerifProps.C10_dispatch"],
                                   cwd=vlib.COQ, timeout=640)
         ok = rc == 0 and "Axioms: <none>" in out
-        ctx.obligation("coqchk -o (C10_precedence, C10_single, C10_fields, C10_positions): no axioms", ok, out[-600:])
+        ctx.obligation("coqchk -o (C10_precedence, C10_single, C10_fields, C10_positions, C10_dispatch): no axioms", ok, out[-600:])
         if not ok:
             ctx.not_shown("coqchk", out[-1500:])
 
     kernel_validation(ctx, ctx.budget(120, 1200))
     registry_validation(ctx, ctx.budget(150, 1500))
     fields_validation(ctx, ctx.budget(150, 1500))
+    dispatch_validation(ctx, ctx.budget(40, 300))
 
     cases = generate_cases(ctx)
     if not proofs_ok and ctx.quick():
@@ -1234,7 +1240,7 @@ def paths_part(ctx: vlib.Ctx, proofs_ok: bool):
     real classes vs K5PKernel.compile + Positions.ref_compile (in Coq) and vs the property-text oracle."""
     from harness.props import c10_paths as cp
     rng = ctx.rng
-    n = ctx.budget(450, 3000) + (0 if proofs_ok else 600)
+    n = ctx.budget(400, 3000) + (0 if proofs_ok else 600)
     cases = [cp.gen_path_case(rng) for _ in range(n)]
     srcs = [cp.build_source(c, PRELUDE) for c in cases]
     if len(cases) > 1500:
@@ -1291,6 +1297,84 @@ def paths_part(ctx: vlib.Ctx, proofs_ok: bool):
     if not done:
         compare("positions-real-classes-vs-model", "PyK_strat OptProj Strategies Positions", "", cp.COQ_DEFS + cp.COQ_OK_MODEL,
                 ["theories/Positions.vo"])
+
+
+def dispatch_validation(ctx: vlib.Ctx, n_terms: int):
+    """(T) tie of K5D: for the real type objects of generated type terms (and Self / Tuple[Self, ...]) every test
+    expression of the four dispatch chains is evaluated with the library's own predicates (in the namespace of
+    pack.py / unpack.py, on a spec stand-in); the translated chain under that valuation must name the site the model
+    uses for that kind of node."""
+    import importlib.util
+    import typing
+    import mashumaro.core.meta.types.pack as pack
+    import mashumaro.core.meta.types.unpack as unpack
+    from mashumaro.core.meta.helpers import get_args, get_type_origin
+    from harness.props import c10_paths as cp
+    spec_ = importlib.util.spec_from_file_location("vk_k5d", os.path.join(vlib.VERIF, "tools", "kernels", "k5d_dispatch.py"))
+    k5d = importlib.util.module_from_spec(spec_)
+    spec_.loader.exec_module(k5d)
+    texts = k5d.test_texts()
+    rng = ctx.rng
+    expect = {"opt": "SStep TOptional", "list": "SStep TElement", "dict": "SStep TElement", "nt": "SStep TNewType",
+              "union": "SStep TMember", "tuple": "SStep TTupleItem", "ntuple": "SStep TNamedField", "tdict": "SStep TTypedKey",
+              "leaf": "SDecline"}
+    objs = []       # (description, type object, expected site)
+    for _ in range(n_terms):
+        term = cp.Term(cp.gen_type(rng))
+        ns = {}
+        exec("import datetime, decimal\nfrom typing import *\n" + "\n".join(term.defs), ns)
+        for nd in term.nodes:
+            objs.append((f"{nd['kind']} {nd['ex']}", ns[nd["ex"]], expect[nd["kind"]]))
+    objs += [("Self", typing.Self, "SSelf"), ("Tuple[Self, ...]", typing.Tuple[typing.Self, ...], "SStep TTupleItem"),
+             ("Optional[Self]", typing.Optional[typing.Self], "SStep TOptional"), ("int", int, "SDecline"),
+             ("str", str, "SOther")]
+    cases, descr = [], []
+    for what, t, exp in objs:
+        org = get_type_origin(t)
+        for side, mod in (("pack", pack), ("unpack", unpack)):
+            fake_builder = types.SimpleNamespace(get_field_resolved_type_params=lambda name: {}, cls=object, is_nailed=True,
+                                                 dialect=None, initial_type_args=(), format_name="dict", encoder=None, decoder=None)
+            sp = types.SimpleNamespace(type=t, origin_type=org, builder=fake_builder, field_ctx=types.SimpleNamespace(name="x", metadata={}),
+                                       annotations=(), expression="value", no_copy_collections=())
+            loc = {"spec": sp, "args": get_args(t), "resolved_type_params": {}, "constraints": (), "evaluated": None,
+                   "method_name": "m", "method_loc": object}
+            vals = []
+            for tx in texts[side]:
+                try:
+                    v = bool(eval(tx, mod.__dict__, loc))
+                except Exception:  # noqa: BLE001  (a test that cannot be evaluated for this type is not reached)
+                    v = False
+                vals.append(f"({vlib.coq_str(tx)}, {'true' if v else 'false'})")
+            cases.append(f"({'true' if side == 'pack' else 'false'}, [{'; '.join(vals)}], {exp})")
+            descr.append(f"{side} {what} -> {exp}")
+            ctx.hist("dispatch_validation", exp)
+    name = "K5D-dispatch-vs-python"
+    if not ctx.kernel_report.get("K5D", {}).get("ok"):
+        ctx.correspondence(name, len(cases), -1, "K5D was not translated")
+        return
+    defs = """
+Fixpoint lkv (l: list (string * bool)) (t: string) : bool :=
+  match l with [] => false | (k, b) :: r => if String.eqb k t then b else lkv r t end.
+Definition site_eqb (a b: site) : bool :=
+  match a, b with
+  | SStep TNewType, SStep TNewType | SStep TOptional, SStep TOptional | SStep TElement, SStep TElement
+  | SStep TMember, SStep TMember | SStep TTupleItem, SStep TTupleItem | SStep TNamedField, SStep TNamedField
+  | SStep TTypedKey, SStep TTypedKey | SSelf, SSelf | SDecline, SDecline | SOther, SOther => true
+  | _, _ => false end.
+Definition disp_ok (c: bool * list (string * bool) * site) : bool :=
+  match c with (pk, vals, ex) => site_eqb (site_of ((if pk then dispatch_pack else dispatch_unpack) (lkv vals))) ex end.
+"""
+    bad, log = vlib.coq_bad_idx("c10_dispatch", "PyK_strat OptProj Strategies Positions Dispatch", "From VerifGen Require Import K5D.",
+                                defs, cases, "disp_ok", "bool * list (string * bool) * site", shard=100,
+                                needs=["theories/Dispatch.vo"])
+    if bad is None:
+        ctx.correspondence(name, len(cases), -1, log)
+        ctx.not_shown("translation validation K5D (dispatch)", log)
+    else:
+        ctx.correspondence(name, len(cases), len(bad), str([descr[i] for i in bad[:8]]))
+        if bad:
+            ctx.not_shown("translation validation K5D (dispatch)", f"cases {[descr[i] for i in bad[:8]]}")
+    ctx.count(n=len(cases))
 
 
 def replay(rep: dict) -> int:
